@@ -54,7 +54,7 @@ def run(ctx, rep, model=True):
     n = 14 if ctx.quick else 80
     for i in range(n):
         spec = plotgen.random_spec(ctx.rng, nf=[2, 3, 1, 4][i % 4], data=["tags", "bits"][i % 2], B=2,
-                                   layout=["scatter", "perm", "files", "mono"][i % 4], exact=(i % 3 != 2))
+                                   layout=["scatter", "files", "perm", "scatter", "files", "mono", "scatter"][i % 7], exact=(i % 3 != 2))
         run_spec(ctx, rep, spec, model)
         if len(rep.violations) >= 10:
             return
